@@ -404,6 +404,37 @@ def finish(prop, tier, seed, results, t0, error=None, extra=None, finite=None):
             code = EXIT_VIOLATION
         else:
             undecided.append([oname, f"state outside the contract ({g}) is read or written: independence from earlier calls does not follow from the per-call contract, and the native search found no history-dependent input (see {path})"])
+    # ---- bounded stand-in for what the engine could not decide: a task that ended UNDECIDED (construct outside the
+    # subset, exploration budget) gets the native search of its replay hook - a corpus of inputs run through the real
+    # code against the spec.  A failing input found there is a violation with a concrete witness (it can never be a
+    # false alarm); finding none leaves the task UNDECIDED.  Labelled bounded, never counted as discharged.
+    standin_log = []
+    for r in results:
+        if not r["undecided"] or os.environ.get("PYVC_NO_STANDIN"):
+            continue
+        tname = r.get("name") or r["task"]
+        if any(t == tname for t, _ in violations):
+            continue
+        rec = {"name": f"{tname}.undecided", "kind": "undecided", "backend": "bounded-native-search", "result": "undecided", "time": 0.0,
+               "meta": {"reasons": sorted({str(u[1])[:200] for u in r["undecided"]})[:5]}, "config": r.get("config")}
+        if rec["name"] in seen_names:
+            continue
+        hook = RP.find_hook(rec)
+        try:
+            import contracts.replays as _R
+
+            allowed = hook is not None and hook in _R.STANDIN_HOOKS
+        except Exception:  # pylint: disable=broad-except
+            allowed = False
+        if not allowed:
+            continue
+        seen_names.add(rec["name"])
+        path, reproduced = RP.write_replay(prop, tname, rec)
+        standin_log.append({"task": tname, "tool": "native corpus search (contracts/replays.py:" + hook.__name__ + ")", "found_failing_input": bool(reproduced), "replay": path})
+        if reproduced:
+            replay_paths.append(path)
+            lines.append(f"VIOLATION property={prop} replay={path} obligation={rec['name']} decided-by=bounded-native-search")
+            code = EXIT_VIOLATION
     for n, ok, w in finite or []:
         if not ok:
             rec = {"name": f"{prop}.finite.{n}", "kind": "finite", "backend": "exhaustive-evaluation", "result": "sat", "time": 0.0, "meta": {"witness": w}, "model": {"witness": w}, "goal": n}
@@ -454,16 +485,22 @@ def finish(prop, tier, seed, results, t0, error=None, extra=None, finite=None):
         },
         "assumptions": assumptions_for(prop),
         "wall_s": round(wall, 3),
-        "violations": len(violations) + sum(1 for f in (finite or []) if not f[1]),
+        "violations": len(violations) + sum(1 for f in (finite or []) if not f[1]) + sum(1 for x in standin_log if x["found_failing_input"]),
     }
     if extra:
         ev["coverage"].update(extra)
+    if standin_log:
+        ev["coverage"].setdefault("bounded_standins", [])
+        ev["coverage"]["bounded_standins"] = list(ev["coverage"]["bounded_standins"]) + [
+            {"name": f"undecided task {x['task']}", "tool": x["tool"], "bound": "fixed corpus", "found_failing_input": x["found_failing_input"], "note": "stand-in for an undecided task; never counted as discharged"}
+            for x in standin_log
+        ]
     evdir = os.environ.get("VERIF_EVIDENCE_DIR") or os.path.join(VERIF, "evidence")
     os.makedirs(evdir, exist_ok=True)
     with open(os.path.join(evdir, f"{prop}.json"), "w", encoding="utf-8") as fh:
         json.dump(ev, fh, indent=1, default=str)
     lines.append(
-        f"SUMMARY property={prop} tier={tier} obligations={n_obl} discharged={n_dis} violations={len(violations)} "
+        f"SUMMARY property={prop} tier={tier} obligations={n_obl} discharged={n_dis} violations={len(violations) + sum(1 for x in standin_log if x['found_failing_input'])} "
         f"known={len(seen_kf)} undecided={len(undecided)} errors={len(errors)} paths={paths} wall={wall:.1f}s"
     )
     return code, lines
